@@ -19,11 +19,11 @@ CHECKS = {
    text="Exploration: grammars that gocc generates without announcing conflicts are compiled and Parse() is driven by token name over all short strings, random sentences, prefix+terminal probes and mutants; nil-error iff Earley membership; termination via an event budget on Scan/action calls (a wall-clock watchdog alone is inconclusive).",
    note="Trusts M-EARLEY (cross-checked against M-LR1 on every conflict-free grammar of the run); small grammars; plain and -zip tables alternate.", ref="4/C02"),
  "C03": dict(tech="offline monitor over recorded event logs (scans, action calls with argument identities) vs post-order evaluation by M-LR1",
-   text="Exploration: every action of a harness grammar is a recorder call; the log of scans, calls (production, argument identities incl. pointer identity of tokens), result, and of injected action failures is compared with the post-order evaluation of the reference parse.",
+   text="Exploration: every action of a harness grammar is a recorder call; the log of scans, calls (production, argument identities incl. pointer identity of tokens), result, and of injected action failures is compared with the post-order evaluation of the reference parse; the Context field is replaced while Parse runs (an action handed a stale value logs it) and every failing-action case is followed by the same input on the same parser.",
    note="Trusts M-LR1's derivation for unambiguous grammars; identities observed at the API boundary only.", ref="4/C03"),
  "C05": dict(tech="reference-model monitor (canonical LR(1) resolved by the stated rule) over verdict and reduction logs of -a parsers",
    text="Exploration: conflicting grammars are generated with -a, compiled and driven; verdict and full reduction sequence are compared with the canonical LR(1) machine resolved by 'shift, else earliest production'; coverage of conflicting (state, terminal) entries is measured.",
-   note="State numbering is never compared; inputs on which the reference itself loops are inconclusive.", ref="4/C05"),
+   note="State numbering is never compared; on inputs where the resolved machine provably diverges (reduction cycle mandated by the rule) the parser must exhaust its event budget with the same reductions.", ref="4/C05"),
  "C06": dict(tech="reference-model monitor (M-EARLEY viable-prefix and follow sets) over *errors.Error values and event logs",
    text="Exploration: on non-sentences of conflict-free, error-free, productive grammars the returned error's token identity/type/literal/position, the exact expected set (as a set) and the absence of action calls after the offending token are judged against Earley.",
    note="Viable prefix = non-empty Earley set, valid because all nonterminals are productive.", ref="4/C06"),
@@ -44,9 +44,9 @@ CHECKS = {
    note="Token types as the scanner assigns them; still-well-formed mutants are run but not judged.", ref="4/C14"),
  "C19": dict(tech="differential monitor (x.md vs extracted x.bnf bytes) plus diagnostic-position oracle computed by the generator",
    text="Exploration: grammars are laid out in fenced blocks between hostile prose; generated bytes must equal those for the extracted fenced text, and an injected stray token must be diagnosed at its line:column in the .md file.",
-   note="Fences on their own lines, valid UTF-8, no ``` inside prose or code (the property's stated domain).", ref="4/C19"),
+   note="Fences on their own lines or inline with prose glued to them, valid UTF-8, no ``` inside prose or code (the property's stated domain).", ref="4/C19"),
  "C15": dict(tech="in-process monitor: shipped front-end tables + shipped Parse loop with recording reduce stubs vs M-SPEC (Earley membership, M-LR1 derivation)",
-   text="Exploration, exhaustive within a bound: every token sequence up to 4 (quick) / 5 (thorough) tokens over the 21-token alphabet, plus random sentences and mutants; acceptance must equal membership in spec/gocc2.ebnf and each reduction must be the spec production with the same head and body.",
+   text="Exploration, exhaustive within a bound: every token sequence up to 4 (quick) / 5 (thorough) tokens over the 21-token alphabet, plus random sentences, mutants and bracket nestings that drive the parse stack to depth 1000; acceptance must equal membership in spec/gocc2.ebnf and each reduction must be the spec production with the same head and body.",
    note="Spec read by the harness's own reader; AST-level semantic checks excluded (C14).", ref="4/C15"),
  "C18": dict(tech="in-process invariant monitor on DisjunctRangeSet (exhaustive small sequences + random) + in-situ hook in every gocc run + read-back of generated case ranges",
    text="Exploration, exhaustive within a bound: all AddRange sequences of up to 3/4 intervals over 6/7 consecutive points at both ends of the rune range, random sequences of up to 12 intervals, the Classes hook on every lexer state of random grammars inside the real gocc, and the case ranges of generated transitiontable.go; oracle: sorted, disjoint, non-empty, exact union, every added interval a union of classes.",
@@ -55,7 +55,7 @@ CHECKS = {
    text="Exploration (thorough: exhaustive over all valid code points x all covered spellings): generated util.RuneValue and gocc's own LitToRune against strconv.UnquoteChar; IntValue/UintValue against strconv.ParseInt/ParseUint on boundary and random decimal strings; literals pushed through gocc and read back from the generated transition table.",
    note="strconv defines Go's literal semantics.", ref="4/C20"),
  "C09": dict(tech="step-counter hooks + CPU rlimit (bounded-progress termination), file-set completeness check, batch go build of everything that exited 0, strace fault injection",
-   text="Exploration + fault enumeration: hostile well-formed grammars, byte/token mutants, random flag combinations (incl. -o/-p forms) and deeply nested nullable patterns run through the real gocc under a step budget on every instrumented loop; exit 0 must mean all required packages written, non-empty and compilable; the N-th write/openat/mkdirat is failed with strace for every N and a run that still exits 0 must have produced the fault-free output.",
+   text="Exploration + fault enumeration: hostile well-formed grammars, byte/token mutants, random flag combinations (incl. -o/-p forms) and deeply nested nullable patterns run through the real gocc under a step budget on every instrumented loop; exit 0 must mean all required packages written, non-empty and compilable, also when the output directory already holds an earlier, larger generation; the N-th write/openat/mkdirat is failed with strace for every N and a run that still exits 0 must have produced the fault-free output.",
    note="Termination restated as bounded progress on size-bounded inputs; wall-clock watchdog alone is inconclusive.", ref="4/C09"),
  "C10": dict(tech="invariant monitor over the compiled token package (Id/Type tables), lexer return types and by-name vs through-lexer parse logs",
    text="Exploration: grammars in lexer-only, -no_lexer and combined modes with hostile terminal spellings; INVALID=0, end-of-input=1, remaining terminals distinct/consecutive, Id and Type mutually inverse, unknown names map to INVALID, the lexer returns and the parser consumes exactly these numbers.",
@@ -67,7 +67,7 @@ CHECKS = {
    text="Exploration: histories of 2-6 Parse calls (valid, failing, recovering, action-error; by name or through the lexer) on one Parser, and scan-k-then-Reset on lexers; each call's complete observation must equal a fresh object's.",
    note="Fresh-object behaviour is the oracle (judged itself by C01-C08).", ref="4/C16"),
  "C17": dict(tech="Go race detector (-race build, GORACE log counted and de-duplicated) + per-goroutine observation equality against a sequential pass",
-   text="Exploration of schedules: 16/32 goroutines released by a barrier, each with its own lexer/parser/recorder, run all inputs in different orders several times on plain and -zip parsers incl. error rendering; zero race reports and all observations equal to the sequential ones; measured overlap reported (<2 is inconclusive).",
+   text="Exploration of schedules: 16/32 goroutines released by a barrier, each with its own lexer/parser/recorder, run all inputs in different orders several times on plain and -zip parsers incl. error rendering, lexers built by NewLexer and by NewLexerFile; zero race reports and all observations equal to the sequential ones; measured overlap reported (<2 is inconclusive).",
    note="The race detector only sees accesses the workload performs; monitor state is goroutine-local.", ref="4/C17"),
 }
 
